@@ -200,3 +200,24 @@ impl PathRewritePlugin for JoinNumericPlugin {
         self.rewrite_gen(text, path)
     }
 }
+
+/// Runs the (private) numeral parser on a string, for external verification harnesses.
+/// Returns (accepted, error state: 0 = NONE, 1 = POINT, 2 = COMMA, normalized form).
+#[cfg(feature = "verif")]
+pub fn verif_parse_numeral(text: &str) -> (bool, u8, String) {
+    let mut parser = NumericParser::new();
+    let mut ok = true;
+    for c in text.chars() {
+        if !parser.append(&c) {
+            ok = false;
+            break;
+        }
+    }
+    let ok = ok && parser.done();
+    let err = match parser.error_state {
+        numeric_parser::Error::NONE => 0,
+        numeric_parser::Error::POINT => 1,
+        numeric_parser::Error::COMMA => 2,
+    };
+    (ok, err, parser.get_normalized())
+}
